@@ -20,6 +20,7 @@ func register(id string, run func(*Run), replay func(Case) *Failure) {
 
 func init() {
 	register("C07", runC07, checkC07)
+	register("C09", runC09, checkC09)
 	register("C10", runC10, checkC10)
 	register("C11", runC11, checkC11)
 	register("C14", runC14, checkC14)
